@@ -5,6 +5,7 @@ that rules are invariant under the commonest behaviour-preserving rewrites:
       `x = c + x` / `x = c * x`           ->  `x += c`         (c a numeric constant)
   N2  `if not c: A else: B`               ->  `if c: B else: A` (no elif chain involved)
   N3  `if c: ...; return/raise/continue/break  else: B`  ->  `if c: ...` followed by B
+  N4  `pass` statements are dropped from blocks that have other statements
 
 Nodes keep their original line numbers (reports still point into the real
 file).  N1 treats the rebinding form and the in-place form alike, which is
@@ -44,6 +45,9 @@ class Desugar(ast.NodeTransformer):
 
     def _block(self, stmts):
         out = []
+        if len(stmts) > 1 and any(isinstance(s, ast.Pass) for s in stmts):
+            kept = [s for s in stmts if not isinstance(s, ast.Pass)]
+            stmts = kept or stmts[:1]
         for s in stmts:
             s = self.visit(s)
             if isinstance(s, ast.If):
